@@ -85,7 +85,10 @@ def run(module, cfg=None, wd=None, env=None, workers=1, simulate=None, depth=Non
             f.write(cfg_text)
     meta = os.path.join(wd, "states-%d" % (time.time_ns() % 10**9))
     gc = "-XX:+UseSerialGC" if workers == 1 else "-XX:+UseParallelGC"
-    cmd = ["java", gc, "-Xss64m", "-Xmx" + heap, "-cp", JAR, "tlc2.TLC",
+    import uuid as _uuid
+    jtmp = os.path.join(wd, "jtmp-" + _uuid.uuid4().hex[:8])          # TLC unpacks its standard modules into java.io.tmpdir on every start
+    os.makedirs(jtmp, exist_ok=True)
+    cmd = ["java", gc, "-Xss64m", "-Djava.io.tmpdir=" + jtmp, "-Xmx" + heap, "-cp", JAR, "tlc2.TLC",
            "-workers", str(workers), "-metadir", meta, "-noGenerateSpecTE",
            "-config", cfg + ".cfg"]
     if simulate:
@@ -112,6 +115,7 @@ def run(module, cfg=None, wd=None, env=None, workers=1, simulate=None, depth=Non
         rc = -9
     res = TLCResult(out, rc, time.time() - t0, " ".join(cmd[5:]))
     shutil.rmtree(meta, ignore_errors=True)
+    shutil.rmtree(jtmp, ignore_errors=True)
     if own:
         cleanup(wd)
     # machinery failures
